@@ -19,7 +19,7 @@ def run(ctx):
     ctx.rule = ("for every configuration of the family (char/type windows 0..2, n-gram sizes 0..3 incl. n > window, dictionary "
                 "subsets of {a, aa, aあ, あaa}, buckets 1..2) every sentence over {a, あ, 1} up to the length bound with every label "
                 "vector in {N,W,U} is added to a real Trainer and the stored examples (read through the verif-hooks accessor) are "
-                "compared as multisets with VpTrainer!Examples; non-trivial = sentence with at least one unknown boundary")
+                "compared as multisets with VpTrainer!Examples; plus windows 128..255 on periodic sentences of 131..520 characters; non-trivial = sentence with at least one unknown boundary")
     consts = {"CWs": {0, 1, 2}, "CNs": {0, 1, 2, 3}, "TWs": {0, 1, 2}, "TNs": {0, 1, 2, 3},
               "DictSel": {0, 3, 5, 14} if q else set(range(16)), "DNs": {1, 2}, "Alphabet": {97, 12354, 49},
               "MaxN": 3, "Couple": True if q else False}
@@ -32,6 +32,14 @@ def run(ctx):
         raise vlib.ToolError("Gen_Train: design-level fact violated: " + res["violated"])
     cases = vlib.nonempty(vlib.cases_from(res["out"]), "Gen_Train")
     ctx.add_tlc(res, f"Gen_Train: {len(cases)} configurations x {len(cases[0]['sents'])} sentences; expected examples by VpTrainer!Examples")
+    # windows of 128..255 characters (relative positions beyond +-127) on sentences longer than the window
+    lconsts = {"WinIdx": {1, 2, 4} if q else {1, 2, 3, 4, 5}, "Lens": {140, 270} if q else {131, 140, 270, 520}, "PatIdx": {2} if q else {1, 2, 3}}
+    resl = vlib.tlc("C10-gen-trainlong", "Gen_TrainLong", vlib.cfg_text(constants=lconsts, invariants=["Facts", "Emit"]), timeout=3400)
+    if resl["violated"]:
+        raise vlib.ToolError("Gen_TrainLong: design-level fact violated")
+    lcases = vlib.nonempty(vlib.cases_from(resl["out"]), "Gen_TrainLong")
+    ctx.add_tlc(resl, f"Gen_TrainLong: {len(lcases)} (window pair, length, pattern) cases with windows 128..255")
+    cases = cases + lcases
     send = []
     for i, c in enumerate(cases):
         send.append({"id": i, "kind": "train", "train": False, "cfg": dict(c["cfg"], solver=1),
